@@ -104,12 +104,19 @@ static_assert(__builtin_offsetof(DA, _count) == 0, "contracts/array.spec address
 extern "C" {
 unsigned da_capacity(void) { return CAP; }
 bool da_item_is(const DA* a, unsigned i, const Item* it) { return i < CAP && item_eq(a->_items[i], *it); }
-void dfcc_da_emplace() { DA a; Item x; nd_item(x); a.emplace(x); VREACH("the contract's precondition is satisfiable: the call returns"); }
+unsigned da_ghost; unsigned char da_ghost_live; Item da_ghost_item;      // ghost slot of the frame clause (ll2c prints globals with a G_ prefix)
+void dfcc_da_emplace() { DA a; Item x; nd_item(x); da_ghost = nd_u8(); da_ghost_live = nd_u8() & 1; nd_item(da_ghost_item); const Item& cx = x; a.emplace(cx); /* const&: the overload under contract (a non-const lvalue picks emplace(TArgs&&...)) */ VREACH("the contract's precondition is satisfiable: the call returns"); }
 // a caller that respects the precondition, verified against the callee's CONTRACT only: append into an empty array
 void dfcc_da_client() {
   DA a; Item x; nd_item(x);
-  const auto r = a.emplace(x);
+  da_ghost = 0; da_ghost_live = 0;
+  const Item& cx = x; const auto r = a.emplace(cx);
   __CPROVER_assert(r == 0 && a.count() == 1 && da_item_is(&a, 0, &x), "C19: client: the first append lands in slot 0 (by the callee contract alone)");
+  // the frame clause, instantiated for slot 0: a second append lands in slot 1 and leaves the first item as it was
+  Item y; nd_item(y);
+  da_ghost = 0; da_ghost_live = 1; da_ghost_item = x;
+  const Item& cy = y; const auto r2 = a.emplace(cy);
+  __CPROVER_assert(r2 == 1 && a.count() == 2 && da_item_is(&a, 1, &y) && da_item_is(&a, 0, &x), "C19: client: an append keeps the items appended before it, in order (by the callee contract alone)");
   VREACH("the callee contract is consistent: the client reaches its end");
 }
 }
